@@ -188,7 +188,22 @@ func newFaultEnv(in faultInput) (*faultEnv, error) {
 			return env, err
 		}
 		cleanup = append(cleanup, func() { s.Close() })
-		env.segs = append(env.segs, s)
+		if in.drops != nil && len(env.segs)%2 == 1 {
+			// every second input of a merge is an mmap-OPENED segment (it carries a reference
+			// count, which a failed or cancelled merge must leave as it found it)
+			o, path, err := zx.PersistOpen(s)
+			if path != "" {
+				p := path
+				cleanup = append(cleanup, func() { zx.Remove(p) })
+			}
+			if err != nil {
+				return env, err
+			}
+			cleanup = append(cleanup, func() { o.Close() })
+			env.segs = append(env.segs, o)
+		} else {
+			env.segs = append(env.segs, s)
+		}
 		refs = append(refs, ref.FromBatch(b))
 	}
 	if in.drops == nil {
@@ -211,6 +226,16 @@ func newFaultEnv(in faultInput) (*faultEnv, error) {
 	}
 	env.exp, env.expMaps = ref.FromMerge(refs, drops)
 	return env, nil
+}
+
+// refsLeaked reports an opened input whose reference count is not 1 any more ("" if none).
+func (env *faultEnv) refsLeaked() string {
+	for i, s := range env.segs {
+		if r := zap.VerifSegmentRefs(s); r != -1 && r != 1 {
+			return fmt.Sprintf("input %d (an opened segment) now has reference count %d, was 1 before the call: its holder's Close will not release it", i, r)
+		}
+	}
+	return ""
 }
 
 // checkComplete checks that the file at path is a complete, correct segment.
@@ -421,6 +446,10 @@ func runC17(ci interface{}, a *run.Acc) {
 					a.Outcome("file-left")
 					return
 				}
+				if m := env.refsLeaked(); m != "" {
+					fail("input-reference-leaked", fmt.Sprintf("writes beyond byte %d failed, the operation returned %q: %s", off, opErr, m))
+					return
+				}
 				a.Outcome("error-and-no-file")
 			}
 		}
@@ -538,6 +567,10 @@ func runC17Handle(c FaultCase, in faultInput, env *faultEnv, a *run.Acc, fail fu
 			zx.Remove(p)
 			fail("file-left", fmt.Sprintf("%s and the operation returned %q, but a file of %d bytes is left at the path", f.name, err, st.Size()))
 			a.Outcome("file-left")
+			return
+		}
+		if m := env.refsLeaked(); m != "" {
+			fail("input-reference-leaked", m)
 			return
 		}
 		a.Outcome("error-and-no-file")
